@@ -34,8 +34,8 @@ ASSUMPTIONS = [
     'observably unchanged = same serialisation of target, owning rule and sheet and same structural lists; object identity of sub-objects is not required',
 ]
 MIN_EVENTS = {
-    'quick': {'oracle.rejected-unchanged': 22000, 'battery.rejected': 14000, 'readonly.calls': 2500, 'mutators.with-rejection': 95},
-    'thorough': {'oracle.rejected-unchanged': 320000, 'battery.rejected': 100000, 'readonly.calls': 2500, 'mutators.with-rejection': 95},
+    'quick': {'oracle.rejected-unchanged': 22000, 'battery.rejected': 14000, 'readonly.calls': 2500, 'mutators.with-rejection': 95, 'oracle.rule-list-enumerated': 5000},
+    'thorough': {'oracle.rejected-unchanged': 320000, 'battery.rejected': 100000, 'readonly.calls': 2500, 'mutators.with-rejection': 95, 'oracle.rule-list-enumerated': 5000},
 }
 
 BASE = (
@@ -503,6 +503,24 @@ def run_worker(ctx):
             cssutils.log.raiseExceptions = True
             if not w.step():
                 break
+    # round 8: rule lists whose accepted first members leave something behind when a later member is refused - enumerated, not left to chance:
+    # every pair and triple of member kinds, at the first positions of every seed sheet, into the sheet and into its first containers
+    kinds = ['variables', 'style', 'namespace', 'import', 'fontface', 'margin', 'charset', 'media', 'page', 'foreign-ns']
+    combos = [[a, b] for a in kinds for b in kinds] + [['variables', a, b] for a in kinds for b in kinds if a != 'variables']
+    j = 0
+    for seed in W.SEEDS:
+        for where in ('sheet', 0, 1):
+            for combo in combos:
+                for index in (0, 1):
+                    j += 1
+                    if not ctx.mine(j):
+                        continue
+                    w = W.Walk(ctx, cssutils, 'c11', ctx.rng('rl', j))
+                    w.start(seed)
+                    cssutils.log.raiseExceptions = True
+                    ctx.count('evaluations')
+                    ctx.count('oracle.rule-list-enumerated')
+                    w.step(['insert-list', where, [[k, 0] for k in combo], index])
     core.canonical_state(cssutils)
     if ctx.k == 0:
         # reach: for how many mutators was at least one rejection observed and compared (whole battery, pristine prior state)
